@@ -13,7 +13,7 @@ import ast
 
 from ..gates import gate_rule
 from ..sites import apply_fn, worker_fn
-from ..model import AnalysisError, FuncInfo, call_name, last_attr, names_in, unparse, walk_no_nested
+from ..model import AnalysisError, FuncInfo, call_name, last_attr, literal_elements, names_in, unparse, walk_no_nested
 
 PROCESS = "codemodder.codemods.base_codemod.BaseCodemod._process_file"
 
@@ -325,9 +325,10 @@ def rule_open_status(ctx, rep):
                 e = ast.parse(txt, mode="eval").body
             except SyntaxError:
                 continue
-            if isinstance(e, ast.Compare) and len(e.ops) == 1 and isinstance(e.ops[0], ast.In) and isinstance(e.comparators[0], (ast.Tuple, ast.List, ast.Set)):
-                vals = {str(x.value).lower() for x in e.comparators[0].elts if isinstance(x, ast.Constant)}
-                if pol and vals and vals <= OPEN_STATES and len(vals) == len(e.comparators[0].elts):
+            elts = literal_elements(ctx.prog, fn.module, e.comparators[0]) if isinstance(e, ast.Compare) and len(e.ops) == 1 and isinstance(e.ops[0], ast.In) else None
+            if elts is not None:
+                vals = {str(x.value).lower() for x in elts if isinstance(x, ast.Constant)}
+                if pol and vals and vals <= OPEN_STATES and len(vals) == len(elts):
                     ok = True
                 elif not pol:
                     why = f"status is tested negatively (`not in {sorted(vals)}`): any state outside that list is treated as open"
